@@ -144,10 +144,21 @@ def gen_needle(rng, case):
     return rng.choice(['\U0010ffff', '\ufffd', '\U0010ffffq', 'zzz', '"', "'", '\\', '\\\\', '\n', 'a"b', "'a'", '"a"', 'a\\"', '\U0001f600', ' i', ')', ',', 'x,y', '*/', '\\"']), 'hostile'
 
 
-def plan(tier, seed):
+def _plan0(tier, seed):
     n = 96 if tier == 'quick' else 1600
     per = 320 if tier == 'quick' else 700
     return [{'seed': seed * 45007 + i, 'n': per} for i in range(n)]
+
+
+def plan(tier, seed):
+    """... plus the shared 'lazy' units: iselect consumed step by step while the caller edits, between two items, exactly what
+    this property's pseudo-classes depend on (vlib/lazy.py; the rest of the iteration must be what the selector designates on
+    the tree as it is now)."""
+    units = _plan0(tier, seed)
+    themes = ['text']
+    k = 16 if tier == 'quick' else 160
+    units += [{'kind': 'lazy', 'theme': themes[i % len(themes)], 'seed': seed * 65521 + i, 'n': 60 if tier == 'quick' else 200} for i in range(k)]
+    return units
 
 
 def run_unit(u):
